@@ -5,6 +5,7 @@ import copy
 import pickle
 
 import optree
+from optree.registry import __GLOBAL_NAMESPACE as GLOBAL
 
 from vf import gen, harness, refmodel
 from vf import universe as U
@@ -138,6 +139,33 @@ def check_pair(sink, seed, idx):  # noqa: C901
         # transitivity inside one namespace: s1 == route == s2 -> s1 == s2
         if eq12:
             sink.check(all(s == s2 for s in rts.values()), 'transitive', '== is transitive within a namespace', ident)
+    # route: broadcast against a twin of the same tree whose dicts were filled in another order and flattened in insertion-ordered mode
+    # (same key sets, another STORED order): the result is s1 again, with s1's key order
+    if idx % 2 == 0 and not has_nonreflexive_key(r1.shape):
+        d_tw = d1.copy()
+        for node in d_tw.walk():
+            if node.k in gen.DICTS and len(node.items) > 1:
+                rng.shuffle(node.items)
+        t_tw, _ = gen.materialize(d_tw, rng)
+        with optree.dict_insertion_ordered(True, namespace=GLOBAL):
+            s_tw = optree.tree_structure(t_tw, **o1.kw())
+            r_tw = refmodel.flatten(t_tw, refmodel.Opts(o1.none_is_leaf, o1.namespace, o1.is_leaf, True))
+        try:
+            want_shape = refmodel.lub(r1.shape, r_tw.shape)
+        except ValueError:
+            want_shape = None
+        if want_shape is not None and refmodel.equal_shapes(want_shape, r1.shape):
+            for name, a, b in (('broadcast-reordered-twin', s1, s_tw), ('reordered-twin-broadcast', s_tw, s1)):
+                try:
+                    res = a.broadcast_to_common_suffix(b)
+                    # (the namespace shown by repr may legitimately be taken over from the other operand; the key order is observed through paths())
+                    ok = res == a and a == res and hash(res) == hash(a) and res.paths() == a.paths() and res.num_nodes == a.num_nodes
+                    got = repr(res)
+                except Exception as e:  # noqa: BLE001
+                    ok, got = False, repr(e)
+                sink.check(ok, f'route/{name}', 'broadcasting against a twin with the same key sets in another stored order gives the treespec back (equal, same hash, own key order)', ident,
+                           lambda: dict(got=got[-120:], want=repr(a)[-120:], twin=repr(b)[-120:], eq=(res == a), heq=(hash(res) == hash(a))))
+            sink.count('reordered-twin-broadcasts')
     sink.cell('rel', rel, orel)
     sink.cell('rel-profile', rel, profile)
     sink.cell('expected', want)
@@ -277,4 +305,5 @@ def finalize(sink, tier, seed):
     sink.require('route-sets')
     sink.require('equal-pairs-across-namespaces')
     sink.require('hash-history-cases')
+    sink.require('reordered-twin-broadcasts', 500)
     sink.require('numeric-twin-pairs', 500)
